@@ -70,7 +70,10 @@ def run_job(job):
                 events.append({"op": "listing", "label": op.get("label"), "listing": w.listing(op["path"])})
             else:
                 w.apply_user_op(op)
-                events.append({"op": k})
+                ev = {"op": k}
+                if k == "purge_strays":
+                    ev["strays"] = list(w.strays)
+                events.append(ev)
         sim_ns = w.now - W.T0
     finally:
         if w is not None:
